@@ -344,7 +344,7 @@ func TestVerifC19S(t *testing.T) {
 		)
 
 		if r.Thorough() {
-			for _, read := range []string{"lastmap", "stateA", "stateB", "statePolicy", "policy"} {
+			for _, read := range []string{"lastmap", "stateA", "policy"} {
 				cfgs = append(cfgs,
 					c19cScenario{name: "two-temps-policy", initial: "GP", next: 'P', read: read, clean: clean, writer: true},
 					c19cScenario{name: "perm+three-temps", initial: "GSPS", merged: 1, next: 'S', read: read, clean: clean},
